@@ -290,6 +290,7 @@ func (c *RemoteClient) Ready(ctx context.Context, nextMessageID uint64) error {
 	if err := c.sendDirect(ctx, &Message{Payload: m}); err != nil {
 		return err
 	}
+	verifPoint("ready.sent")
 
 	c.nextMessageID.Store(nextMessageID)
 	c.handshakeComplete.Store(true)
